@@ -205,6 +205,7 @@ type commitDef struct {
 	tree    int    // ordinal into profile.trees
 	msg     string // exact message bytes
 	headers string // extra raw header lines (each ending in \n), e.g. "encoding ISO-8859-1\n"
+	side    bool   // belongs to the side line of a fork/merge (dated by another clock under dates="skew")
 }
 
 type refSel struct {
@@ -226,7 +227,8 @@ type topo struct {
 	pushed   int            // >=0: commit index that refs/remotes/origin/main points at; a real remote `origin` (bare repo next to the repository) is configured
 	bare     bool
 	refsels  []refSel
-	exotic   bool // carries commit-message forms outside what `git commit` writes (no trailing LF, CRLF, encoding header)
+	dates    string // time stamp assignment: "" strictly increasing along creation order; "same": every commit in the same second; "skew": side-line commits dated before the root (a clock that runs behind: children older than their ancestors)
+	exotic   bool   // carries commit-message forms outside what `git commit` writes (no trailing LF, CRLF, encoding header)
 }
 
 var (
@@ -299,7 +301,7 @@ func topologies() []topo {
 	add(topo{name: "fork", commits: fork, branches: map[string]int{"main": 1, "side": 2}, lwTags: map[string]int{"vs": 2}, annTags: map[string]int{"a0": 0},
 		refsels: []refSel{rsDefault, rsEverything, rsPositional("side", "side"), rsPositional("main+side", "main", "side"),
 			rsIncExc("side-not-main", []string{"refs/heads/side"}, []string{"refs/heads/main"})}})
-	merge := []commitDef{{tree: 0, msg: msgN(0)}, {parents: []int{0}, tree: 1, msg: msgN(1)}, {parents: []int{0}, tree: 2, msg: msgN(2)},
+	merge := []commitDef{{tree: 0, msg: msgN(0)}, {parents: []int{0}, tree: 1, msg: msgN(1)}, {parents: []int{0}, tree: 2, msg: msgN(2), side: true},
 		{parents: []int{1, 2}, tree: 3, msg: "Merge branch 'side'\n\n# Conflicts:\n#\ta.bin\n"}}
 	add(topo{name: "merge", commits: merge, branches: map[string]int{"main": 3, "side": 2}, lwTags: map[string]int{"vm": 3}, annTags: map[string]int{"as": 2},
 		refsels: []refSel{rsDefault, rsEverything, rsIncExc("main-not-side", []string{"refs/heads/main"}, []string{"refs/heads/side"}), rsPositional("side", "side")}})
@@ -321,6 +323,25 @@ func topologies() []topo {
 		refsels: []refSel{rsDefault, rsEverything, rsIncExc("main-not-origin", []string{"refs/heads/main"}, []string{"refs/remotes/origin/main"})}})
 	add(topo{name: "bare", commits: lin(3), branches: map[string]int{"main": 2}, lwTags: map[string]int{"v0": 0}, annTags: map[string]int{"a1": 1}, bare: true,
 		refsels: []refSel{rsDefault, rsEverything, rsIncExc("main-not-v0", []string{"refs/heads/main"}, []string{"refs/tags/v0"})}})
+	// a merge whose sides have different lengths back to the fork point: P - X - M  and  P - Z - Y - M
+	asym := []commitDef{{tree: 0, msg: msgN(0)}, {parents: []int{0}, tree: 1, msg: msgN(1)}, {parents: []int{0}, tree: 2, msg: msgN(2), side: true},
+		{parents: []int{2}, tree: 3, msg: msgN(3), side: true}, {parents: []int{1, 3}, tree: 3, msg: "Merge branch 'side' (long side)\n"}}
+	add(topo{name: "merge-asym", commits: asym, branches: map[string]int{"main": 4, "side": 3}, lwTags: map[string]int{"vz": 2}, annTags: map[string]int{"ax": 1},
+		refsels: []refSel{rsDefault, rsEverything, rsIncExc("main-not-side", []string{"refs/heads/main"}, []string{"refs/heads/side"}), rsPositional("side", "side")}})
+	// time stamp dimension for the graphs with merges: all commits in one second / the side line committed by a clock that runs behind
+	for _, base := range []string{"merge", "merge-asym", "merge-noside"} {
+		for _, d := range []string{"same", "skew"} {
+			for _, t := range ts {
+				if t.name == base {
+					v := t
+					v.name = base + "@" + d
+					v.dates = d
+					ts = append(ts, v)
+					break
+				}
+			}
+		}
+	}
 	// commit objects as other tools write them
 	add(topo{name: "exotic-msg", exotic: true, commits: []commitDef{
 		{tree: 0, msg: "no trailing newline"},
@@ -355,13 +376,25 @@ var (
 )
 
 func ident(role string, k int) string {
-	switch role {
-	case "author":
-		return fmt.Sprintf("Ann Author%d <ann.%d@example.com> %d +0100", k, k, 1704110400+3600*k)
-	case "committer":
-		return fmt.Sprintf("Carl Committer <carl@example.com> %d -0700", 1704110400+3600*k+1800)
-	}
 	return fmt.Sprintf("Tim Tagger <tim@example.com> %d +0530", 1704200000+60*k)
+}
+
+// ident gives commit k its author / committer line under the topology's time stamp assignment.
+func (t *topo) ident(role string, k int) string {
+	at, ct := int64(1704110400+3600*k), int64(1704110400+3600*k+1800)
+	switch t.dates {
+	case "same":
+		at, ct = 1704110400, 1704110400
+	case "skew":
+		if t.commits[k].side {
+			at = 1704110400 - 3600*int64(len(t.commits)-k) - 900
+			ct = 1704110400 - 3600*int64(len(t.commits)-k)
+		}
+	}
+	if role == "author" {
+		return fmt.Sprintf("Ann Author%d <ann.%d@example.com> %d +0100", k, k, at)
+	}
+	return fmt.Sprintf("Carl Committer <carl@example.com> %d -0700", ct)
 }
 
 func fiQuote(p string) string {
@@ -414,6 +447,9 @@ func (sh *shape) key() string {
 }
 
 func mustOK(r gitx.Res, what string) string {
+	if r.TimedOut || r.Code == -2 {
+		panic("INCONCLUSIVE: base construction: " + what + ": subprocess timed out or could not be started")
+	}
 	if !r.OK() {
 		panic(fmt.Sprintf("c12 base: %s failed: %s", what, r))
 	}
@@ -452,14 +488,14 @@ func buildBase(w *gitx.World, dir string, sh *shape, b *base) {
 	b.dir = dir
 	b.repo = "repo"
 	repo := filepath.Join(dir, "repo")
-	w.Init(repo, sh.t.bare)
+	initRepo(w, repo, sh.t.bare)
 	used := sh.usedTrees()
-	mustOK(w.RunIn(repo, fastImportStream(sh.p, used), nil, "git", "fast-import", "--quiet", "--done"), "fast-import")
+	mustOK(runR(w, repo, fastImportStream(sh.p, used), nil, "git", "fast-import", "--quiet", "--done"), "fast-import")
 	args := []string{"rev-parse"}
 	for _, k := range used {
 		args = append(args, fmt.Sprintf("refs/c12tmp/t%d^{tree}", k))
 	}
-	ids := strings.Fields(w.MustGit(repo, args...))
+	ids := strings.Fields(mustOK(runR(w, repo, nil, nil, "git", args...), "rev-parse"))
 	treeID := map[int]string{}
 	for i, k := range used {
 		treeID[k] = ids[i]
@@ -471,8 +507,8 @@ func buildBase(w *gitx.World, dir string, sh *shape, b *base) {
 		for _, p := range c.parents {
 			fmt.Fprintf(&o, "parent %s\n", b.commit[p])
 		}
-		fmt.Fprintf(&o, "author %s\ncommitter %s\n%s\n%s", ident("author", i), ident("committer", i), c.headers, c.msg)
-		id := strings.TrimSpace(mustOK(w.RunIn(repo, o.Bytes(), nil, "git", "hash-object", "-t", "commit", "-w", "--stdin"), "hash-object commit"))
+		fmt.Fprintf(&o, "author %s\ncommitter %s\n%s\n%s", sh.t.ident("author", i), sh.t.ident("committer", i), c.headers, c.msg)
+		id := strings.TrimSpace(mustOK(runR(w, repo, o.Bytes(), nil, "git", "hash-object", "-t", "commit", "-w", "--stdin"), "hash-object commit"))
 		b.commit = append(b.commit, id)
 	}
 	var upd bytes.Buffer
@@ -493,18 +529,18 @@ func buildBase(w *gitx.World, dir string, sh *shape, b *base) {
 	for ti, n := range annNames {
 		i := sh.t.annTags[n]
 		obj := fmt.Sprintf("object %s\ntype commit\ntag %s\ntagger %s\n\nannotated tag %s\n\nsecond paragraph\n", b.commit[i], n, ident("tagger", ti), n)
-		id := strings.TrimSpace(mustOK(w.RunIn(repo, []byte(obj), nil, "git", "hash-object", "-t", "tag", "-w", "--stdin"), "hash-object tag"))
+		id := strings.TrimSpace(mustOK(runR(w, repo, []byte(obj), nil, "git", "hash-object", "-t", "tag", "-w", "--stdin"), "hash-object tag"))
 		tagID[n] = id
 		fmt.Fprintf(&upd, "update refs/tags/%s %s\n", n, id)
 	}
 	for ti, n := range sortedKeysS(sh.t.tagOfTag) {
 		inner := sh.t.tagOfTag[n]
 		obj := fmt.Sprintf("object %s\ntype tag\ntag %s\ntagger %s\n\ntag of tag %s\n", tagID[inner], n, ident("tagger", 10+ti), inner)
-		id := strings.TrimSpace(mustOK(w.RunIn(repo, []byte(obj), nil, "git", "hash-object", "-t", "tag", "-w", "--stdin"), "hash-object tag"))
+		id := strings.TrimSpace(mustOK(runR(w, repo, []byte(obj), nil, "git", "hash-object", "-t", "tag", "-w", "--stdin"), "hash-object tag"))
 		fmt.Fprintf(&upd, "update refs/tags/%s %s\n", n, id)
 	}
-	mustOK(w.RunIn(repo, upd.Bytes(), nil, "git", "update-ref", "--stdin"), "update-ref")
-	gitdir := w.GitDir(repo)
+	mustOK(runR(w, repo, upd.Bytes(), nil, "git", "update-ref", "--stdin"), "update-ref")
+	gitdir := strings.TrimSpace(mustOK(runR(w, repo, nil, nil, "git", "rev-parse", "--absolute-git-dir"), "rev-parse --absolute-git-dir"))
 	for _, k := range used {
 		for _, f := range sh.p.trees[k] {
 			if f.lfs {
@@ -514,15 +550,24 @@ func buildBase(w *gitx.World, dir string, sh *shape, b *base) {
 	}
 	if sh.t.pushed >= 0 {
 		remote := filepath.Join(dir, "remote.git")
-		w.Init(remote, true)
-		w.MustGit(repo, "remote", "add", "origin", "../remote.git")
-		w.MustGit(repo, "push", "-q", "origin", b.commit[sh.t.pushed]+":refs/heads/main")
-		w.MustGit(repo, "fetch", "-q", "origin")
+		initRepo(w, remote, true)
+		mustOK(w.Git(repo, "remote", "add", "origin", "../remote.git"), "remote add")
+		mustOK(runR(w, repo, nil, nil, "git", "push", "-q", "origin", b.commit[sh.t.pushed]+":refs/heads/main"), "push")
+		mustOK(runR(w, repo, nil, nil, "git", "fetch", "-q", "origin"), "fetch")
 	}
 	if !sh.t.bare {
-		mustOK(w.Git(repo, "checkout", "-q", "-f", "main"), "checkout")
+		mustOK(runR(w, repo, nil, nil, "git", "checkout", "-q", "-f", "main"), "checkout")
 	}
-	mustOK(w.Git(repo, "fsck", "--strict", "--no-dangling"), "fsck of base")
+	mustOK(runR(w, repo, nil, nil, "git", "fsck", "--strict", "--no-dangling"), "fsck of base")
+}
+
+func initRepo(w *gitx.World, dir string, bare bool) {
+	os.MkdirAll(dir, 0755)
+	args := []string{"init", "-q", "-b", "main"}
+	if bare {
+		args = []string{"init", "-q", "--bare", "-b", "main"}
+	}
+	mustOK(runR(w, dir, nil, nil, "git", args...), "git init")
 }
 
 func sortedKeys(m map[string]int) []string {
